@@ -73,6 +73,23 @@ def eval_case(case) -> Outcome:
                         cap = float(C.interp(Te, Ne, ts))
                         if u["q"] > cap + eps:
                             out.fail("C03.reach_cold", f"{where}: cold utility {u['name']} carries {u['q']!r} > pocket-free GCC {cap!r} at its shifted supply {float(ts)}")
+            # the whole utility profile must stay under the pocket-free GCC (a utility cannot serve heat at
+            # temperatures its own profile does not reach) - same reference curve as C04, rebuilt from the reported duties
+            from ..ref import utility as U
+
+            fh, fc = U.frac_rows(hu), U.frac_rows(cu)
+            pts = set(Te)
+            for r in fh + fc:
+                pts.add(r["tsf"])
+                pts.add(r["ttf"])
+            tolp = eps + 1e-7 * float(max(c.Qh, c.Qc))
+            worst = None
+            for T in pts:
+                over = float(U.utility_gcc(fh, fc, T) - C.interp(Te, Ne, T))
+                if over > tolp and (worst is None or over > worst[0]):
+                    worst = (over, T)
+            if worst:
+                out.fail("C03.profile_reach", f"{where}: the utilities would have to place {worst[0]:.6g} more heat at T*={float(worst[1])} than the process can exchange there (utility profile above the pocket-free GCC)")
             if path == ():
                 ncl = C.closures(c.T, c.R)
                 if any(x > hot_pinch for x in ncl):
@@ -111,8 +128,11 @@ def eval_case(case) -> Outcome:
 
 
 def strategy(tier):
+    from .c04 import glide_ladder
+
     mx = 8 if tier == "quick" else 12
     return st.one_of(
+        glide_ladder(tier),
         G.problem(min_streams=3, max_streams=mx, shape="mixed", max_hot=3, max_cold=3),
         G.problem(min_streams=4, max_streams=mx, shape="mixed", max_hot=3, max_cold=3, isothermal_utils=True),
         G.problem(min_streams=2, max_streams=mx, shape="mixed", multi_zone=True),
